@@ -106,6 +106,17 @@ func concScenario(spec *concSpec) *Scenario {
 			if has("W2") {
 				writer("W2", sa2, 2, 300)
 			}
+			if has("Wxb") {
+				// further blocking writers on other streams (writers of one stream serialise on
+				// the stream; a teardown has to release every one of them)
+				writer("Wxb", sa2, 6, 500)
+			}
+			if has("Wyb") {
+				writer("Wyb", open(a, 3), 6, 500)
+			}
+			if has("Wzb") {
+				writer("Wzb", open(a, 4), 6, 500)
+			}
 			if has("Wb") {
 				writer("Wb", sb1, 2, 120)
 			}
@@ -184,7 +195,7 @@ func concScenario(spec *concSpec) *Scenario {
 					m.WaitUntil("writer-waits", 30*time.Second, func() bool {
 						mu.Lock()
 						defer mu.Unlock()
-						return len(wrote["W1"]) >= 4
+						return len(wrote["W1"])+len(wrote["Wxb"])+len(wrote["Wyb"])+len(wrote["Wzb"]) >= 4
 					})
 				}
 			}
@@ -439,12 +450,16 @@ func propC20(j *Job) {
 		if mi > 0 && !j.Thorough() {
 			break
 		}
-		for _, prog := range []string{"W1b Xh", "W1b Xc", "W1b Xa"} {
+		for _, prog := range []string{"W1b Xh", "W1b Xc", "W1b Xa", "W1b Wxb Wyb Wzb Xc", "W1b Wxb Wyb Wzb Xa", "W1b Wxb Wyb Wzb Xh"} {
 			a := withBase(mode.A, 228, 0xFFFFFFFE, 4000)
 			a.BlockWrite = true
 			b := withBase(mode.B, 228, 0xFFFFFFF0, 4000)
 			b.RecvBuf = 1500
-			j.Explore(fmt.Sprintf("CB/%s/%s", mode.Name, strings.ReplaceAll(prog, " ", "+")), concScenario(&concSpec{A: a, B: b, prog: prog, yield: true}), Budget{D: 1}, nil)
+			d := 1
+			if strings.Contains(prog, "Wzb") && !j.Thorough() {
+				d = 0
+			}
+			j.Explore(fmt.Sprintf("CB/%s/%s", mode.Name, strings.ReplaceAll(prog, " ", "+")), concScenario(&concSpec{A: a, B: b, prog: prog, yield: true}), Budget{D: d}, nil)
 			if j.capped() {
 				break
 			}
